@@ -44,6 +44,7 @@ pub fn all() -> Vec<Regression> {
         Regression { name: "D25-brent-leaves-bracket", property: "C08", what: "backward DOP853 with a long first step: every event of cos(3t) must lie inside the span", f: d25 },
         Regression { name: "D27-radau-slow-newton-fallthrough", property: "C14", what: "Radau on Van der Pol mu=100, [0,200], rtol=0.1: final error must stay at tolerance scale (was 3.4)", f: d27 },
         Regression { name: "D12-hinit-depends-on-dimension", property: "C13", what: "16 identical copies of a system with the automatic initial step take the same first step as the system itself", f: d12 },
+        Regression { name: "D28-first-output-absolute-slack", property: "C03", what: "x0=1, span 1e-9, first_step=span/7, DOP853 rtol 1e-8 on a problem starting at rest: t must be strictly monotone", f: d28 },
         Regression { name: "D16-rk4-dense-order", property: "C07", what: "RK4 cubic Hermite dense output must be O(h^4) inside a step", f: d16 },
     ]
 }
@@ -564,6 +565,29 @@ fn d12() -> Result<(), String> {
         let (s1, sm) = (sol_of(&r1)?, sol_of(&rm)?);
         if (s1.t[1] - sm.t[1]).abs() > 1e-9 * s1.t[1].abs() {
             return Err(format!("{}: first step {:e} for the system, {:e} for 16 copies", mname(m), s1.t[1], sm.t[1]));
+        }
+    }
+    Ok(())
+}
+
+fn d28() -> Result<(), String> {
+    let c0 = 2.0 / 1e-9;
+    let p = crate::problems::Prob {
+        name: "rest".into(),
+        n: 1,
+        f: std::sync::Arc::new(move |t, y, d| d[0] = c0 * (c0 * (t - 1.0) - y[0])),
+        jac: None,
+        flow: None,
+        y0: vec![0.0],
+        linear_homogeneous: false,
+    };
+    let mut c = Cfg::new(Method::DOP853, 1.0, 1.0 + 1e-9, &p.y0).tol(1e-8, 1e-11);
+    c.first_step = Some(1e-9 / 7.0);
+    let r = run(&p, &c);
+    let s = sol_of(&r)?;
+    for w in s.t.windows(2) {
+        if !(w[1] > w[0]) {
+            return Err(format!("t not strictly increasing: {:e} then {:e}", w[0], w[1]));
         }
     }
     Ok(())
